@@ -290,6 +290,7 @@ func checkC08(c *Ctx) {
 		}
 		run.qans = wsAnswers(res.Root, res, 0, run.qsteps)
 		runs = append(runs, j)
+		j.PC.Steps, j.PC.Files = nil, nil // (only the views and answers are needed from here on; the thorough tier keeps millions of runs)
 	}
 	cfg := func(mode string, maxHist int, invs string) string {
 		return fmt.Sprintf("CONSTANTS\n  Files = {\"f1\",\"f2\",\"f3\"}\n  Variants = {\"clean\",\"syn\",\"warn\",\"defg\",\"useg\",\"req2\",\"req3\",\"dof2\"}\n  MaxHist = %d\n  InitMode = %q\nINIT Init\nNEXT Next\nINVARIANTS %s\nCHECK_DEADLOCK FALSE\n", maxHist, mode, invs)
